@@ -438,9 +438,14 @@ def judge(ctx, trace_module, scripts, trace_path, bad, owners, revalidate=True, 
     traces = split_traces(trace_path)
     by_tid = {s['tid']: s for s in scripts}
     known_printed = set()
+    judged = set()     # traces for which an owned rejection has been judged already
     for b in bad:
         tid, line, why = b['tid'], b['line'], b['why']
         mine = owned(ctx.prop, why, owners)
+        if mine and tid in judged:
+            continue   # later failures of the same trace follow from the first one
+        if mine:
+            judged.add(tid)
         first, evs = traces[tid]
         idx = line - first
         ev, begin, prev = evs[idx], evs[0], evs[1:idx]
